@@ -17,7 +17,7 @@ LEVEL_TEXT = ("PARTIAL. Proved in Coq for every trace of atomic durable transiti
               "the stored operations of the topic above the cursor (C15_replay_exact, C15_delivered_exact); the cursor is the per-log maximum "
               "of committed acknowledgements (C15_cursor_is_max_acked), hence the replay set is exactly 'stored and not acknowledged, neither "
               "itself nor a later operation of its log' (C15_replay_iff_not_acked), C15_acked_not_redelivered, C15_unacked_replayed, "
-              "C15_replay_then_restart; API calls cut by a crash are such traces (C15_api_calls_are_traces). The model is tied to the code on "
+              "C15_replay_then_restart; API calls cut by a crash are such traces (C15_crash_anywhere_in_api_calls). The model is tied to the code on "
               "every run: histories of publish/prune/import/ack on a real Node, crashed after each session and inside calls, restarted on the "
               "same database; tables are read with raw SQL before every restart; model line and implementation line are compared, the oracle "
               "checks the property on the observed tables and events. SQLite durability/atomicity and the process model are assumed, not verified.")
@@ -29,10 +29,10 @@ ASSUMPTIONS = ["SQLite: a committed transaction / single statement is atomic and
                "one Acked instance per cursor name at a time (acks serialised by the stream's semaphore); restarts use StreamFrom::Frontier",
                "imported operations carry the log id of the topic they are imported into; operation ids (hashes) are unique"]
 TRUSTED = ["modelled not verified: SQLite durability and atomicity, tokio task/thread scheduling of the stream task and pipeline thread, ed25519/BLAKE3, CBOR codecs"]
-RULE = ("quick: ~45 generated histories (2-4 node sessions each, 1-5 calls per session over publish/prune/import/ack/held-ack/other-topic publish, "
+RULE = ("quick: 3 fixed + 30 generated histories (2-4 node sessions each, 1-5 calls per session over publish/prune/import/ack/held-ack/other-topic publish, "
         "policies Explicit/Automatic per session, 1-3 authors, foreign logs up to 14 entries with body-less, undecodable and prune-flagged entries, "
-        "duplicate and out-of-order imports), crash by node drop after every session, ~40% with a crash inside a call (publish/import not awaited, "
-        "replay consumed partially), a third of them in a child process killed by abort(); thorough: ~260 histories, up to 6 sessions, half with abort. "
+        "duplicate and out-of-order imports), crash by node drop after every session (all work awaited) or by abort() of a child process running the session; ~40% with a crash inside a call "
+        "(publish/import not awaited, replay consumed partially) - always by abort(); thorough: 3 + 240 histories, up to 6 sessions. "
         "non-trivial = some restart replays at least one event while another stored operation with a body is held back by the cursor")
 
 POL = {"E": "Explicit", "A": "Automatic"}
@@ -128,7 +128,9 @@ def _gen_case(rng, tier, crash):
         racy = {"kind": "i", "op": ["I", chunk], "y": rng.choice([0, 1, 2, 4, 8, 30])}
     elif r < 0.45:
         racy = {"kind": "r", "pol": rng.choice(["A", "A", "E"]), "j": rng.randint(1, 3)}
-    return {"crash": crash, "me": me, "n": n, "foreign": foreign, "segs": segs, "racy": racy,
+    # a crash inside a call needs a process that really dies: a dropped node leaves its pipeline
+    # thread running until its queue is empty, which is not a crash
+    return {"crash": "a" if racy else crash, "me": me, "n": n, "foreign": foreign, "segs": segs, "racy": racy,
             "final": rng.choice(["E", "E", "A"])}
 
 
@@ -142,10 +144,10 @@ def gen(tier, rng):
            "segs": [{"pol": "E", "ops": [["I", [100 + i for i in range(13)]], ["A", 109]]},
                     {"pol": "E", "ops": [["P", 1, 1, 0]]}],
            "racy": {"kind": "r", "pol": "A", "j": 1}}
-    yield {"crash": "d", "me": 0, "n": 1, "foreign": [], "final": "A",
+    yield {"crash": "a", "me": 0, "n": 1, "foreign": [], "final": "A",
            "segs": [{"pol": "A", "ops": [["P", 1, 1, 0], ["O", 200]]}],
            "racy": {"kind": "p", "op": ["P", 2, 1, 0], "y": 2}}
-    ncases = 45 if tier == "quick" else 260
+    ncases = 30 if tier == "quick" else 240
     for i in range(ncases):
         if tier == "quick":
             crash = "a" if i % 3 == 0 else "d"
@@ -410,7 +412,7 @@ def shrink(case):
             c = copy.deepcopy(case)
             del c["segs"][i]["ops"][j]
             yield c
-    if case["crash"] == "a":
+    if case["crash"] == "a" and not case.get("racy"):
         c = copy.deepcopy(case)
         c["crash"] = "d"
         yield c
